@@ -229,7 +229,7 @@ def part_trees(k, tier, acc):
                             dict(part="trees", trees=[a, b], same=same))
     # three trees (thorough only: the pairwise logic is what the code has)
     if tier != "quick":
-        for a, b, c in itertools.product(range(0, len(fam), 5), repeat=3):
+        for a, b, c in itertools.product(range(0, len(fam), 2), repeat=3):
             i += 1
             if i % 16 != k:
                 continue
